@@ -1,5 +1,6 @@
 import XlModel.StreamTree
 import XlModel.Lemmas.Stream2
+set_option linter.unusedSimpArgs false
 /-! `writeCell` vs `encoding/xml` on the abstract element tree (C11). -/
 namespace XlModel.Stream
 open XlModel.Ref
@@ -165,5 +166,93 @@ theorem rowCells_r_ne_nil (x : Ext) (cs : ColStyles) (rs row : Int) :
               rw [mkCell_r x cs rs ref col it c hmk]
               exact ref_ne_nil href
             · exact ih (col + 1) cells' hrest c hc
+
+/-! ## row attributes -/
+
+theorem l_ra_s : lit " s=\"" = lit " " ++ (lit "s" ++ lit "=\"") := rfl
+theorem l_ra_cf : lit "\" customFormat=\"1\"" = lit "\"" ++ (lit " " ++ (lit "customFormat" ++ (lit "=\"" ++ (lit "1" ++ lit "\"")))) := rfl
+theorem l_ra_ht : lit " ht=\"" = lit " " ++ (lit "ht" ++ lit "=\"") := rfl
+theorem l_ra_ch : lit "\" customHeight=\"1\"" = lit "\"" ++ (lit " " ++ (lit "customHeight" ++ (lit "=\"" ++ (lit "1" ++ lit "\"")))) := rfl
+theorem l_ra_ol : lit " outlineLevel=\"" = lit " " ++ (lit "outlineLevel" ++ lit "=\"") := rfl
+theorem l_ra_hid : lit " hidden=\"1\"" = lit " " ++ (lit "hidden" ++ (lit "=\"" ++ (lit "1" ++ lit "\""))) := rfl
+
+/-- the attribute bytes `marshalAttrs` returns are the serialisation of `rowAttrList` -/
+theorem marshalAttrs_renders (o : RowOpts) (a : Bytes) (h : marshalAttrs o = .ok a) :
+    a = renderAttrs (rowAttrList o) := by
+  unfold marshalAttrs at h
+  split at h
+  · simp at h
+  · split at h
+    · simp at h
+    · simp only [Except.ok.injEq] at h
+      subst h
+      unfold rowAttrList
+      by_cases h1 : o.style > 0 <;> by_cases h2 : o.h4 > 0 <;> by_cases h3 : o.outline > 0 <;> cases h4 : o.hidden <;>
+        simp [h1, h2, h3, renderAttrs, l_ra_s, l_ra_cf, l_ra_ht, l_ra_ch, l_ra_ol, l_ra_hid]
+
+theorem kne_0_1 : (lit "s" = lit "customFormat") = False := by simp; decide
+theorem kne_0_2 : (lit "s" = lit "ht") = False := by simp; decide
+theorem kne_0_3 : (lit "s" = lit "customHeight") = False := by simp; decide
+theorem kne_0_4 : (lit "s" = lit "outlineLevel") = False := by simp; decide
+theorem kne_0_5 : (lit "s" = lit "hidden") = False := by simp; decide
+theorem kne_1_0 : (lit "customFormat" = lit "s") = False := by simp; decide
+theorem kne_1_2 : (lit "customFormat" = lit "ht") = False := by simp; decide
+theorem kne_1_3 : (lit "customFormat" = lit "customHeight") = False := by simp; decide
+theorem kne_1_4 : (lit "customFormat" = lit "outlineLevel") = False := by simp; decide
+theorem kne_1_5 : (lit "customFormat" = lit "hidden") = False := by simp; decide
+theorem kne_2_0 : (lit "ht" = lit "s") = False := by simp; decide
+theorem kne_2_1 : (lit "ht" = lit "customFormat") = False := by simp; decide
+theorem kne_2_3 : (lit "ht" = lit "customHeight") = False := by simp; decide
+theorem kne_2_4 : (lit "ht" = lit "outlineLevel") = False := by simp; decide
+theorem kne_2_5 : (lit "ht" = lit "hidden") = False := by simp; decide
+theorem kne_3_0 : (lit "customHeight" = lit "s") = False := by simp; decide
+theorem kne_3_1 : (lit "customHeight" = lit "customFormat") = False := by simp; decide
+theorem kne_3_2 : (lit "customHeight" = lit "ht") = False := by simp; decide
+theorem kne_3_4 : (lit "customHeight" = lit "outlineLevel") = False := by simp; decide
+theorem kne_3_5 : (lit "customHeight" = lit "hidden") = False := by simp; decide
+theorem kne_4_0 : (lit "outlineLevel" = lit "s") = False := by simp; decide
+theorem kne_4_1 : (lit "outlineLevel" = lit "customFormat") = False := by simp; decide
+theorem kne_4_2 : (lit "outlineLevel" = lit "ht") = False := by simp; decide
+theorem kne_4_3 : (lit "outlineLevel" = lit "customHeight") = False := by simp; decide
+theorem kne_4_5 : (lit "outlineLevel" = lit "hidden") = False := by simp; decide
+theorem kne_5_0 : (lit "hidden" = lit "s") = False := by simp; decide
+theorem kne_5_1 : (lit "hidden" = lit "customFormat") = False := by simp; decide
+theorem kne_5_2 : (lit "hidden" = lit "ht") = False := by simp; decide
+theorem kne_5_3 : (lit "hidden" = lit "customHeight") = False := by simp; decide
+theorem kne_5_4 : (lit "hidden" = lit "outlineLevel") = False := by simp; decide
+
+/-- as finite maps, the attributes the stream writer puts on a row are the attributes the marshaller writes for
+the row the in-memory setters build from the same options -/
+theorem rowAttrs_eq_memory (o : RowOpts) (k : Bytes) :
+    attrOf (rowAttrList o) k = attrOf (marshalRowAttrs (Spec.rowRec o)) k := by
+  unfold rowAttrList marshalRowAttrs Spec.rowRec attrOf
+  have p1 : o.style > 0 → o.style ≠ 0 := by omega
+  have p3 : o.outline > 0 → o.outline ≠ 0 := by omega
+  by_cases e0 : lit "s" = k
+  · subst e0
+    by_cases h1 : o.style > 0 <;> by_cases h2 : o.h4 > 0 <;> by_cases h3 : o.outline > 0 <;> cases h4 : o.hidden <;>
+      simp [h1, h2, h3, p1, p3, List.find?_cons, kne_0_1, kne_0_2, kne_0_3, kne_0_4, kne_0_5, kne_1_0, kne_1_2, kne_1_3, kne_1_4, kne_1_5, kne_2_0, kne_2_1, kne_2_3, kne_2_4, kne_2_5, kne_3_0, kne_3_1, kne_3_2, kne_3_4, kne_3_5, kne_4_0, kne_4_1, kne_4_2, kne_4_3, kne_4_5, kne_5_0, kne_5_1, kne_5_2, kne_5_3, kne_5_4] <;> (try omega)
+  by_cases e1 : lit "customFormat" = k
+  · subst e1
+    by_cases h1 : o.style > 0 <;> by_cases h2 : o.h4 > 0 <;> by_cases h3 : o.outline > 0 <;> cases h4 : o.hidden <;>
+      simp [h1, h2, h3, p1, p3, List.find?_cons, kne_0_1, kne_0_2, kne_0_3, kne_0_4, kne_0_5, kne_1_0, kne_1_2, kne_1_3, kne_1_4, kne_1_5, kne_2_0, kne_2_1, kne_2_3, kne_2_4, kne_2_5, kne_3_0, kne_3_1, kne_3_2, kne_3_4, kne_3_5, kne_4_0, kne_4_1, kne_4_2, kne_4_3, kne_4_5, kne_5_0, kne_5_1, kne_5_2, kne_5_3, kne_5_4] <;> (try omega)
+  by_cases e2 : lit "ht" = k
+  · subst e2
+    by_cases h1 : o.style > 0 <;> by_cases h2 : o.h4 > 0 <;> by_cases h3 : o.outline > 0 <;> cases h4 : o.hidden <;>
+      simp [h1, h2, h3, p1, p3, List.find?_cons, kne_0_1, kne_0_2, kne_0_3, kne_0_4, kne_0_5, kne_1_0, kne_1_2, kne_1_3, kne_1_4, kne_1_5, kne_2_0, kne_2_1, kne_2_3, kne_2_4, kne_2_5, kne_3_0, kne_3_1, kne_3_2, kne_3_4, kne_3_5, kne_4_0, kne_4_1, kne_4_2, kne_4_3, kne_4_5, kne_5_0, kne_5_1, kne_5_2, kne_5_3, kne_5_4] <;> (try omega)
+  by_cases e3 : lit "customHeight" = k
+  · subst e3
+    by_cases h1 : o.style > 0 <;> by_cases h2 : o.h4 > 0 <;> by_cases h3 : o.outline > 0 <;> cases h4 : o.hidden <;>
+      simp [h1, h2, h3, p1, p3, List.find?_cons, kne_0_1, kne_0_2, kne_0_3, kne_0_4, kne_0_5, kne_1_0, kne_1_2, kne_1_3, kne_1_4, kne_1_5, kne_2_0, kne_2_1, kne_2_3, kne_2_4, kne_2_5, kne_3_0, kne_3_1, kne_3_2, kne_3_4, kne_3_5, kne_4_0, kne_4_1, kne_4_2, kne_4_3, kne_4_5, kne_5_0, kne_5_1, kne_5_2, kne_5_3, kne_5_4] <;> (try omega)
+  by_cases e4 : lit "outlineLevel" = k
+  · subst e4
+    by_cases h1 : o.style > 0 <;> by_cases h2 : o.h4 > 0 <;> by_cases h3 : o.outline > 0 <;> cases h4 : o.hidden <;>
+      simp [h1, h2, h3, p1, p3, List.find?_cons, kne_0_1, kne_0_2, kne_0_3, kne_0_4, kne_0_5, kne_1_0, kne_1_2, kne_1_3, kne_1_4, kne_1_5, kne_2_0, kne_2_1, kne_2_3, kne_2_4, kne_2_5, kne_3_0, kne_3_1, kne_3_2, kne_3_4, kne_3_5, kne_4_0, kne_4_1, kne_4_2, kne_4_3, kne_4_5, kne_5_0, kne_5_1, kne_5_2, kne_5_3, kne_5_4] <;> (try omega)
+  by_cases e5 : lit "hidden" = k
+  · subst e5
+    by_cases h1 : o.style > 0 <;> by_cases h2 : o.h4 > 0 <;> by_cases h3 : o.outline > 0 <;> cases h4 : o.hidden <;>
+      simp [h1, h2, h3, p1, p3, List.find?_cons, kne_0_1, kne_0_2, kne_0_3, kne_0_4, kne_0_5, kne_1_0, kne_1_2, kne_1_3, kne_1_4, kne_1_5, kne_2_0, kne_2_1, kne_2_3, kne_2_4, kne_2_5, kne_3_0, kne_3_1, kne_3_2, kne_3_4, kne_3_5, kne_4_0, kne_4_1, kne_4_2, kne_4_3, kne_4_5, kne_5_0, kne_5_1, kne_5_2, kne_5_3, kne_5_4] <;> (try omega)
+  · by_cases h1 : o.style > 0 <;> by_cases h2 : o.h4 > 0 <;> by_cases h3 : o.outline > 0 <;> cases h4 : o.hidden <;>
+      simp [e0, e1, e2, e3, e4, e5, h1, h2, h3, p1, p3, List.find?_cons, kne_0_1, kne_0_2, kne_0_3, kne_0_4, kne_0_5, kne_1_0, kne_1_2, kne_1_3, kne_1_4, kne_1_5, kne_2_0, kne_2_1, kne_2_3, kne_2_4, kne_2_5, kne_3_0, kne_3_1, kne_3_2, kne_3_4, kne_3_5, kne_4_0, kne_4_1, kne_4_2, kne_4_3, kne_4_5, kne_5_0, kne_5_1, kne_5_2, kne_5_3, kne_5_4] <;> (try omega)
 
 end XlModel.Stream
